@@ -5,7 +5,6 @@ import (
 	"math/rand"
 	"sort"
 	"strings"
-	"time"
 
 	"github.com/fatedier/frp/pkg/msg"
 	"github.com/fatedier/frp/pkg/util/vhost"
@@ -385,7 +384,7 @@ func tableCase(c *h.Case) {
 	variant := rng.Intn(nVariants)
 	s, err := acquire(variant)
 	if err != nil {
-		run.Inconclusive("server start failed: " + err.Error())
+		run.Inconclusive("no server: " + err.Error())
 		return
 	}
 	t := &tcase{c: c, rng: rng, s: s, B: fmt.Sprintf("k%d.test", c.Idx), pfx: fmt.Sprintf("k%d.", c.Idx),
@@ -403,7 +402,7 @@ func tableCase(c *h.Case) {
 		if err != nil || !p.LoggedIn() {
 			run.Inconclusive("login failed")
 			t.closePeers()
-			clean = h.Eventually(20*time.Second, func() bool { return routesEmpty(s) })
+			clean = waitClean(s)
 			return
 		}
 		t.peers[i] = p
@@ -697,6 +696,9 @@ func (t *tcase) stepInFlight(i int, live []string) (done, ok bool) {
 	a := <-ch
 	c.Ev("request", "phase", phase, "req", slow, "got", a.String(), "tag", a.Tag, "in_flight", true)
 	run.Count("requests_in_flight_across_reregistration", 1)
+	if a.Ident == "" {
+		run.Count("in_flight_requests_not_answered", 1)
+	}
 	switch {
 	case a.Ident == "" || a.Ident == p.ident():
 	case !t.m.isLive(a.Ident):
@@ -739,9 +741,9 @@ func (t *tcase) finish(clean *bool) {
 	}
 	t.ua.close()
 	t.closePeers()
-	*clean = h.Eventually(20*time.Second, func() bool { return routesEmpty(t.s) })
+	*clean = waitClean(t.s)
 	if !*clean {
 		sn := t.s.srv.Snapshot()
-		c.Violation("routes-left-after-all-sessions-ended", "20 s after every session was closed the server still holds http=%v https=%v tcpmux=%v sessions=%d", sn.HTTPRoutes, sn.HTTPSRoutes, sn.TCPMuxRoutes, len(sn.Sessions))
+		c.Violation("routes-left-after-all-sessions-ended", "after every session was closed and left the session table the server still holds http=%v https=%v tcpmux=%v sessions=%d", sn.HTTPRoutes, sn.HTTPSRoutes, sn.TCPMuxRoutes, len(sn.Sessions))
 	}
 }
